@@ -911,6 +911,10 @@ structure SlidingCountSt where
   since : Nat
   deriving Repr, Inhabited, BEq
 
+/-- `SlidingCountWindow::new`: the counter starts at `slide - size` (saturating), so that the first
+emission is due as soon as the window is first full also when the slide exceeds the size -/
+def SlidingCountSt.fresh (size slide : Nat) : SlidingCountSt := { buf := [], since := slide - size }
+
 /-- `SlidingCountWindow::add_shared` -/
 def SlidingCountSt.add (size slide : Nat) (w : SlidingCountSt) (e : Event) : SlidingCountSt × Emit :=
   let buf0 := w.buf ++ [e]
@@ -1048,7 +1052,9 @@ inductive WinSt where
   | pSlidingCount (ws : List (String × SlidingCountSt))
   deriving Repr, Inhabited, BEq
 
-/-- the state of the same operator in a freshly loaded engine -/
+/-- the same operator in a freshly loaded engine, as far as `restore` looks at it: only its kind
+matters, every field of the state is overwritten (`windows.clear()` for the partitioned forms;
+the two `Partitioned*State` maps of a freshly loaded engine are empty) -/
 def WinSt.fresh : WinSt → WinSt
   | .tumbling _ => .tumbling { buf := [], start := none }
   | .sliding _ => .sliding { buf := [], lastEmit := none }
@@ -1140,7 +1146,7 @@ def WinSt.step (c : WinCfg) (pk : Event → String) : WinSt → WinOp → WinSt 
   | .pSession ws, .wm t => let r := partWmDrop (SessionSt.wm c.dur) ws t; (.pSession r.1, r.2)
   | .pCount ws, .add e => let r := partAdd pk { buf := [] } (CountSt.add c.n) ws e; (.pCount r.1, r.2.getD [])
   | .pCount ws, .wm _ => (.pCount ws, [])
-  | .pSlidingCount ws, .add e => let r := partAdd pk { buf := [], since := 0 } (SlidingCountSt.add c.n c.m) ws e; (.pSlidingCount r.1, r.2.getD [])
+  | .pSlidingCount ws, .add e => let r := partAdd pk (SlidingCountSt.fresh c.n c.m) (SlidingCountSt.add c.n c.m) ws e; (.pSlidingCount r.1, r.2.getD [])
   | .pSlidingCount ws, .wm _ => (.pSlidingCount ws, [])
 
 /-- outputs of a whole continuation -/
